@@ -753,6 +753,32 @@ fn export<'tcx>(tcx: TyCtxt<'tcx>) {
                     }
                 }
             }
+            // function items used as values (`x.map(make_cooperative)`, `.for_each(helper)`) are call-graph edges too
+            {
+                use rustc_middle::mir::visit::Visitor;
+                struct FnRefs<'a, 'tcx> {
+                    tcx: TyCtxt<'tcx>,
+                    tenv: TypingEnv<'tcx>,
+                    seen: &'a mut Vec<String>,
+                }
+                impl<'a, 'tcx> Visitor<'tcx> for FnRefs<'a, 'tcx> {
+                    fn visit_const_operand(&mut self, c: &ConstOperand<'tcx>, _l: Location) {
+                        if let ty::FnDef(d, a) = c.const_.ty().kind() {
+                            let mut name = dps(self.tcx, *d);
+                            if let Ok(nargs) = self.tcx.try_normalize_erasing_regions(self.tenv, ty::Unnormalized::new_wip(*a)) {
+                                if let Ok(Some(inst)) = Instance::try_resolve(self.tcx, self.tenv, *d, nargs) {
+                                    name = dps(self.tcx, inst.def_id());
+                                }
+                            }
+                            if !self.seen.contains(&name) {
+                                self.seen.push(name);
+                            }
+                        }
+                    }
+                }
+                let mut v = FnRefs { tcx, tenv, seen: &mut seen };
+                v.visit_body(body);
+            }
             for (i, n) in seen.iter().enumerate() {
                 if i > 0 {
                     o.push(',');
